@@ -19,7 +19,9 @@ non-retriable exception fails after one execution.
 from __future__ import annotations
 
 import hashlib
+import os
 import random
+import sys
 from typing import Any
 
 from simkit import apps as _apps
@@ -52,7 +54,7 @@ ASSUMPTIONS = [
 ]
 REAL = ["Task._call / distribute_calls", "ConcurrentInvocation (sync retry loop)", "DistributedInvocation.run + set_invocation_retry", "app.direct_task wrappers", "ThreadRunner", "both stacks"]
 STUBBED = ["clock", "thread scheduling", "uuid4"]
-PROBES = ["subtask_of_other_task", "retry_exhausted", "retry_then_success", "non_retriable", "group", "direct", "direct_parallel", "nested"]
+PROBES = ["worker_stalled", "subtask_of_other_task", "retry_exhausted", "retry_then_success", "non_retriable", "group", "direct", "direct_parallel", "nested"]
 
 
 def plan(tier: str) -> list[dict]:
@@ -124,8 +126,58 @@ def _call(app: Any, spec: dict, flavour: str, opts: dict, get: Any) -> Any:
 
 
 def _run_dist(seed: int, stack: str, spec: dict, flavour: str, opts: dict) -> tuple[Any, dict, dict]:
-    with Deployment(seed, stack, 1, policy="rand", policy_arg=0.2, max_steps=400_000, max_time=120.0, conf={"max_threads": 3}) as d:
+    prng = random.Random(f"{seed}:c19sched:{stack}")
+    # priority-based schedules (pct) starve one thread while the others make progress: a worker stalled between
+    # two effects of its retry hand-over, with the next attempt running meanwhile, needs exactly that
+    policy = prng.choice(["rand", "rand", "pct", "pct"])
+    parg = {"rand": 0.2, "pct": prng.choice([1, 2, 3])}[policy]
+    # fault: one worker thread stalls (descheduled / slow I/O) for a while at its K-th yield point; a stall is legal
+    # behaviour and must not change outcome or execution counts
+    stall_at = prng.randint(1, 60) if prng.random() < 0.6 else None
+    stall_for = prng.choice([0.05, 0.3, 1.0])
+    trace = ["orchestrator/base_orchestrator.py", "broker/mem_broker.py"] if (stack == "mem" and prng.random() < 0.5) else None
+    with Deployment(seed, stack, 1, policy=policy, policy_arg=parg, max_steps=400_000, max_time=120.0, conf={"max_threads": 3}, trace_files=trace) as d:
         simtasks.reset()
+        if stall_at is not None:
+            cnt: dict[str, Any] = {"n": 0, "done": False, "stalls": 0}
+            # "slow hand-over": every effect a worker performs inside one of the multi-step hand-over operations is
+            # preceded by a short stall (so each window between two of its effects is held open once per run);
+            # otherwise one long stall at the K-th yield of the workers
+            slow_handover = prng.random() < 0.6
+            place_fn = prng.choice(["set_invocation_retry", "set_invocation_retry", "reroute_invocations", "register_new_invocations", "set_invocation_exception", "set_invocation_result"])
+            short = prng.choice([0.03, 0.1])
+            if os.environ.get("C19_STALL"):  # debugging aid: "function:seconds"
+                slow_handover = True
+                place_fn, s_ = os.environ["C19_STALL"].split(":")
+                short = float(s_)
+
+            def inside(fn: str) -> bool:
+                f = sys._getframe(2)
+                for _ in range(40):
+                    if f is None:
+                        return False
+                    if f.f_code.co_name == fn:
+                        return True
+                    f = f.f_back
+                return False
+
+            def hook(th: Any, kind_: str, detail: Any) -> None:
+                if cnt["done"] or th.kind != "t" or not th.name.startswith("r1/") or kind_ not in ("sql", "line", "lock-acquire", "clock"):
+                    return
+                if slow_handover:
+                    if cnt["stalls"] < 60 and inside(place_fn):
+                        cnt["stalls"] += 1
+                        if cnt["stalls"] == 1:
+                            d.sim.bump("fault.worker_slow_handover")
+                        d.sim.sleep(short)
+                    return
+                cnt["n"] += 1
+                if cnt["n"] >= stall_at:
+                    cnt["done"] = True
+                    d.sim.bump("fault.worker_stall")
+                    d.sim.sleep(stall_for)
+
+            d.sim.fault_hook = hook
         res: dict[str, Any] = {}
         # register on every app object of the deployment
         for app in d.w.distinct_apps():
@@ -279,12 +331,18 @@ def run(seed: int, params: dict, replay: dict | None = None) -> dict:
             if diff:
                 viol.append({"signature": f"C19/{a}-vs-{b}/executions/{flavour}", "message": f"executions of awaited nodes differ ({a}, {b}): {diff}; {desc}"})
     key = repr((spec, flavour, max_retries, retry_for)).encode()
+    for cm in (mem_common, sql_common):
+        for k_, v_ in (cm.get("stats") or {}).items():
+            if k_.startswith("fault."):
+                stats[k_] = stats.get(k_, 0) + v_
+    if stats.get("fault.worker_stall") or stats.get("fault.worker_slow_handover"):
+        stats["probe.worker_stalled"] = stats.get("fault.worker_stall", 0) + stats.get("fault.worker_slow_handover", 0)
     return {
         "violations": viol,
         "stats": stats,
         "steps": mem_common["steps"] + sql_common["steps"],
         "sim_time": mem_common["sim_time"] + sql_common["sim_time"],
-        "sched_hash": hashlib.sha256(key).hexdigest()[:16],
+        "sched_hash": hashlib.sha256(key + str(mem_common.get("sched_hash")).encode() + str(sql_common.get("sched_hash")).encode()).hexdigest()[:16],
         "nontrivial": bool(failing) or len(nodes) > 1,
         "inconclusive": inconclusive,
         "sample": {"program": spec, "flavour": flavour, "max_retries": max_retries, "retry_for": retry_for, "reference": repr(ref), "executions_awaited": lazy, "executions_all_launched": eager},
